@@ -24,3 +24,31 @@ class PLight(LightNodeMixin):
     def __init__(self, name, data=None):
         self.name = name
         self.data = data
+
+
+_COUNT = [0]
+
+
+def fresh_slotted_pair():
+    """A fresh, importable (hence picklable) pair of slotted classes Item_k(LightNodeMixin) / Weighted_k(Item_k): state
+    kept per class inside the library (e.g. a cache filled at first use) starts empty for them."""
+    import sys
+
+    k = _COUNT[0]
+    _COUNT[0] += 1
+    mod = sys.modules[__name__]
+
+    def init_item(self, name, data=None):
+        self.name = name
+        self.data = data
+
+    item = type("Item_%d" % k, (LightNodeMixin,), {"__slots__": ("name", "data"), "__init__": init_item, "__module__": __name__})
+
+    def init_w(self, name, data=None, weight=0):
+        item.__init__(self, name, data)
+        self.weight = weight
+
+    weighted = type("Weighted_%d" % k, (item,), {"__slots__": ("weight",), "__init__": init_w, "__module__": __name__})
+    setattr(mod, item.__name__, item)
+    setattr(mod, weighted.__name__, weighted)
+    return item, weighted
